@@ -286,7 +286,10 @@ def run(rep: Report, prog: Program, tier: str) -> None:
     rep.rule("C10-OVERFLOW", "losses and overflow: only whole sent frames (or, right after a discard, the tail of one) are released, in sending order, and a key-frame request is raised", min_instances=30)
     pattern = (2, 3, 1, 4, 2, 1, 3)
     n_cases = 0
-    for start, lost_at, gap_at, gap, prefetch in itertools.product((0, 65520), (1, 3), (14, 17, 22), (0, 1, 4, 7), (0, 2)):
+    combos = [c + (None,) for c in itertools.product((0, 65520), (1, 3), (14, 17, 22), (0, 1, 4, 7), (0, 2))]
+    # one packet arrives far too early (2 x capacity or more ahead) while the packets before it keep arriving in order
+    combos += [(st_, 1, 30, 0, pf_, (12, ahead)) for st_ in (0, 65520) for pf_ in (0, 2) for ahead in (33, 37, 45)]
+    for start, lost_at, gap_at, gap, prefetch, early in combos:
         pkts = []
         seq = start
         fi_ = 0
@@ -297,16 +300,21 @@ def run(rep: Report, prog: Program, tier: str) -> None:
                 seq += 1
             fi_ += 1
         lost = {lost_at} | set(range(gap_at, gap_at + gap))
-        label = f"first seq {start}, packet #{lost_at} lost for good, {gap} more lost from #{gap_at}, prefetch {prefetch}"
+        label = f"first seq {start}, packet #{lost_at} lost for good, {gap} more lost from #{gap_at}, prefetch {prefetch}" + \
+            (f", packet #{early[0] + early[1]} arrives right after #{early[0]}" if early else "")
+        order_ = [i for i in range(len(pkts)) if i not in lost]
+        if early:
+            e_ = early[0] + early[1]
+            order_.remove(e_)
+            order_.insert(order_.index(early[0]) + 1, e_)
         n_cases += 1
         try:
             jb = oh.instantiate(ci, [], dict(capacity=16, prefetch=prefetch, is_video=True), evj)
             out = []
             pli = False
             since = True  # the first released frame may be a tail (stream start)
-            for i, p in enumerate(pkts):
-                if i in lost:
-                    continue
+            for i in order_:
+                p = pkts[i]
                 r = oh.run_method(add, jb, [p], {})
                 pli = pli or bool(r[0])
                 since = since or bool(r[0])
@@ -349,7 +357,7 @@ def run(rep: Report, prog: Program, tier: str) -> None:
             last_end = idxs[-1]
         if not pli:
             problems.append("packets were discarded but no key-frame request was raised")
-        if len(out) < 3:
+        if len(out) < 3 and not early:
             problems.append(f"only {len(out)} frames were released: the buffer did not recover")
         if problems:
             sr = prog.func(JB + ".smart_remove")
